@@ -12,7 +12,8 @@
    as an oracle that tiles the buffer, C03), the C glue and the keyboard-layout tables, wall-clock time. *)
 From Coq Require Import NArith List Bool Arith Lia.
 From LC Require Import Base.Lib Gen.Keyboard_gen Model.Keyboard Gen.Editor_gen Model.Syllable Model.Composition Model.Conversion Model.Editor Model.EditorRun
-     Model.EdInst Proofs.CompositionProofs Proofs.EdInstProofs Proofs.EditorInv Proofs.EditorWitness Proofs.EditorSelect Proofs.NoPanic Proofs.KeyEventsOk Proofs.GraphPath.
+     Model.EdInst Proofs.CompositionProofs Proofs.EdInstProofs Proofs.EditorInv Proofs.EditorWitness Proofs.EditorSelect Proofs.NoPanic Proofs.KeyEventsOk Proofs.GraphPath Model.Engine Proofs.EngineProofs.
+From Coq Require Import ZArith Permutation.
 Import ListNotations.
 Open Scope nat_scope.
 
@@ -169,6 +170,81 @@ Print Assumptions C01_every_operation_total.
 Print Assumptions C01_conversion_graph_has_a_path_after_every_history.
 Print Assumptions C01_no_history_panics_or_hangs.
 Print Assumptions C01_no_history_from_a_fresh_editor_panics_or_hangs.
+
+(* ---- the conversion engine's own path search (Model/Engine.v: ChewingEngine::{convert, find_k_paths,
+   shortest_path, trim_paths}, PossiblePath::{score, contains}; the fuzzy engine is the same code with another
+   lookup strategy) ---- *)
+(* `sortu` stands for candidates.sort_unstable_by_key(|k| k.len()), whose order among equal keys the Rust
+   source leaves to the standard library: the theorems hold for EVERY function that permutes its input.
+   `lookup` is any dictionary that holds nothing under the empty key. *)
+
+(* shortest_path: no index out of range, both loops end within their fuel; an answer is a path of edges that
+   were not removed, from the source to the end of the buffer; None only if no such path exists *)
+Theorem C01_shortest_path_total_sound_complete : forall (E : list edge) (len : nat),
+  (forall e, In e E -> eb e < ee e <= len) -> forall removed source, source <= len ->
+  exists r, shortest_path (G E len) removed source len = Ok r /\
+    (forall p, r = Some p -> gpath E source len p /\ (forall e, In e p -> live E len removed e)) /\
+    (r = None -> forall p, ~ lpath E len removed source len p).
+Proof. exact shortest_path_spec. Qed.
+Print Assumptions C01_shortest_path_total_sound_complete.
+
+(* ChewingEngine::convert on the interval graph of ANY well-formed composition of up to 4000 symbols, any
+   dictionary, any frequencies: never Panic (in particular `shortest_path(..).unwrap()`, the index
+   `start * len + end - 1`, `parent[edge.end]`, the i32 conversions of the score), never OutOfFuel; at least
+   one alternative; every alternative tiles the buffer and is the glue-fold of a 0 -> len path of the graph
+   (so the C03 / C04 theorems about every path apply to every alternative the engine returns) *)
+Theorem C01_conversion_engine_never_panics : forall (sortu : list path -> list path) (lookup : lookup_fn) (spell : N -> list N) (c : composition),
+  (forall l, Permutation (sortu l) l) -> lookup [] = [] -> wf_comp c -> clen c <= 4000 ->
+  exists alts b, chewing_convert_x sortu spell lookup c = Ok (alts, b) /\ alts <> [] /\
+    forall ivs, In ivs alts ->
+      contiguous 0 (clen c) ivs = true /\
+      (symbols c <> [] -> exists p, path_ok (find_intervals spell lookup c) 0 (clen c) p = true /\
+                                    ivs = glue_path c (map edge_interval p)).
+Proof. intros sortu lookup spell c Hp Hn Wc Hl. exact (chewing_convert_spec lookup Hn spell c Wc sortu Hp Hl). Qed.
+Print Assumptions C01_conversion_engine_never_panics.
+
+(* ... so the engine model, asked for its n-th alternative as Editor::conversion does (paths[n % paths.len()]),
+   meets the contract `conv_tiles` that C01_no_history_panics_or_hangs asks of the conversion oracle, for every
+   buffer of up to 4000 symbols (the C API limits the buffer to 39 + the symbol being typed) *)
+Definition engine_conv (sortu : list path -> list path) (spell : N -> list N) (lookup : lookup_fn) : conv_fn :=
+  fun c n => match chewing_convert sortu spell lookup c with
+             | Ok alts => List.nth (n mod length alts) alts []
+             | _ => []
+             end.
+
+Theorem C01_engine_meets_the_oracle_contract : forall sortu lookup spell c n,
+  (forall l, Permutation (sortu l) l) -> lookup [] = [] -> wf_comp c -> clen c <= 4000 ->
+  contiguous 0 (clen c) (engine_conv sortu spell lookup c n) = true.
+Proof.
+  intros sortu lookup spell c n Hp Hn Wc Hl. unfold engine_conv, chewing_convert.
+  destruct (chewing_convert_spec lookup Hn spell c Wc sortu Hp Hl) as (alts & b & -> & Hne & Hall). cbn [bind fst].
+  apply Hall. apply nth_In. apply Nat.mod_upper_bound. destruct alts; [contradiction | discriminate].
+Qed.
+Print Assumptions C01_engine_meets_the_oracle_contract.
+
+(* the executable instance the correspondence check runs (stable insertion sort = what
+   core::slice::sort::unstable::sort does for at most 20 elements) is such a sort *)
+Theorem C01_sort_by_len_permutes : forall l, Permutation (sort_by_len l) l.
+Proof.
+  assert (Hi : forall p l, Permutation (insert_by_len p l) (p :: l)).
+  { intros p. induction l as [|x l IH]; cbn [insert_by_len]; [reflexivity|].
+    destruct (Nat.leb (length p) (length x)); [reflexivity|]. rewrite IH. apply perm_swap. }
+  induction l as [|x l IH]; cbn; [reflexivity|]. now rewrite Hi, IH.
+Qed.
+Print Assumptions C01_sort_by_len_permutes.
+
+(* the pinned tree (before fix 2d722b2): a phrase frequency that does not fit in i32 - any u32 is a legal
+   frequency in a dictionary file - made PossiblePath::score panic ("score should fit in i32"); replayed on
+   the implementation with a dictionary whose phrases carry frequency 3,000,000,000.  The repaired score
+   saturates *)
+Definition huge_path : path := [mkEdge 0 2 (PPhrase [28204%N; 35430%N] 3000000000%N); mkEdge 2 3 (PPhrase [28204%N] 3000000000%N)].
+Theorem C01_score_huge_frequency_pinned_refuted : score_pinned huge_path = Panic 311.
+Proof. vm_compute. reflexivity. Qed.
+Print Assumptions C01_score_huge_frequency_pinned_refuted.
+
+Theorem C01_score_huge_frequency_fixed : score huge_path = Ok 2147483647%Z.
+Proof. vm_compute. reflexivity. Qed.
+Print Assumptions C01_score_huge_frequency_fixed.
 
 (* ---- the hypotheses can be met (non-vacuity) ---- *)
 (* every key event the C API builds is admitted: the character is printable ASCII or U+FFFD *)
